@@ -93,3 +93,15 @@ func (a *Args) hasRest(w string) bool {
 	}
 	return false
 }
+
+// safely runs f and reports whether it panicked (a library panic is an observation, not a crash
+// of the harness).
+func safely(f func()) (panicked bool) {
+	defer func() {
+		if p := recover(); p != nil {
+			panicked = true
+		}
+	}()
+	f()
+	return false
+}
